@@ -16,6 +16,7 @@ import (
 func init() {
 	core.Register(&core.Family{Name: "session", Exec: exec, Classify: func(k byte, b []byte) string { return "history" }})
 	core.Checks["C18"] = check
+	schema.SessionHistories = Histories
 }
 
 // Texts is the catalogue behind the text ids of MCSession.
@@ -52,9 +53,9 @@ var Texts = map[string]string{
 	"s6a": `submodule s6a { belongs-to m6 { prefix m6; } include s6b; grouping ga { leaf la { type string; } } container ca { uses gb; } }`,
 	"s6b": `submodule s6b { belongs-to m6 { prefix m6; } grouping gb { leaf lb { type string; } } container cb; }`,
 	// two revisions of one module and an importer without revision-date: the import must follow the latest loaded
-	"bb-r1": `module bb { namespace "urn:bb"; prefix bb; revision 2020-01-01; grouping g { leaf old { type string; } } }`,
-	"bb-r2": `module bb { namespace "urn:bb"; prefix bb; revision 2021-01-01; grouping g { leaf new { type string; } } }`,
-	"ib": `module ib { namespace "urn:ib"; prefix ib; import bb { prefix bb; } container c { uses bb:g; } }`,
+	"bb-r1": `module bb { namespace "urn:bb"; prefix bb; revision 2020-01-01; grouping g { leaf old { type string; } } typedef t { type string; } }`,
+	"bb-r2": `module bb { namespace "urn:bb"; prefix bb; revision 2021-01-01; grouping g { leaf new { type string; } } typedef t { type int32; } }`,
+	"ib": `module ib { namespace "urn:ib"; prefix ib; import bb { prefix bb; } container c { uses bb:g; } leaf l { type bb:t; } typedef tl { type bb:t; } leaf k { type tl; } }`,
 	// accepted by the loader, rejected by Process: the errors must come back on every run
 	"e5": `module e5 { namespace "urn:e5"; prefix e5;
   typedef small { type int8 { range "1..500"; } }
@@ -67,6 +68,49 @@ var Texts = map[string]string{
   typedef broken { type nosuch; }
   container c { leaf third { type string; } }
 }`,
+	// ---- second catalogue (MCGood2 / MCBad2) ----
+	// an error found while a type is resolved (fraction-digits of a derived decimal64 overridden): every run must report it
+	"fd": `module fd { namespace "urn:fd"; prefix fd;
+  typedef d2 { type decimal64 { fraction-digits 2; } }
+  typedef d3 { type d2 { fraction-digits 3; } }
+  leaf x { type d2 { fraction-digits 3; } }
+  leaf fine { type d2; }
+}`,
+	// a target module and a module (without revision statement) that augments and deviates it
+	"tgt": `module tgt { namespace "urn:tgt"; prefix tgt;
+  container c { leaf l { type string; default "d"; } leaf-list ll { type string; max-elements 5; } }
+  rpc r { output { leaf o { type string; } } }
+}`,
+	// a second module claiming tgt's namespace
+	"tgt2": `module tgt2 { namespace "urn:tgt"; prefix tgt2; leaf other { type string; } }`,
+	"dv": `module dv { namespace "urn:dv"; prefix dv; import tgt { prefix t; }
+  augment "/t:c" { leaf grafted { type string; } }
+  augment "/t:r/t:input" { leaf gi { type string; } }
+  deviation "/t:c/t:l" { deviate replace { default "late"; } }
+  deviation "/t:c/t:ll" { deviate replace { max-elements 2; } }
+  deviation "/t:c/t:nosuch" { deviate not-supported; }
+}`,
+	// a module with a revision statement (loaded after others it changes nothing for them)
+	"rv": `module rv { namespace "urn:rv"; prefix rv; revision 2022-02-02; leaf r { type string; } }`,
+	// identities with two bases, one of them in a module that may be loaded later; an identityref typedef likewise
+	"idm": `module idm { yang-version 1.1; namespace "urn:idm"; prefix idm; import idb { prefix b; }
+  identity LOCAL; identity BOTH { base LOCAL; base b:ROOT; } identity BELOW { base BOTH; }
+  identity HALF { base LOCAL; base NOWHERE; }
+  typedef tr { type identityref { base b:ROOT; } }
+  leaf lr { type tr; }
+  leaf ll { type identityref { base LOCAL; } }
+}`,
+	"idb": `module idb { namespace "urn:idb"; prefix idb; identity ROOT; leaf r { type identityref { base ROOT; } } }`,
+	// linking fails: the import cannot be satisfied
+	"lnk": `module lnk { namespace "urn:lnk"; prefix lnk; import nowhere-to-be-found { prefix n; } leaf l { type string; } }`,
+	// a grouping with an error of its own, used twice
+	"bg": `module bg { namespace "urn:bg"; prefix bg;
+  grouping g { uses no-such-grouping; leaf x { type string; } }
+  container c1 { uses g; }
+  list c2 { key x; uses g; }
+}`,
+	// builds as a container node with typedefs of a type that is not built in, refused by the set because it is not a module
+	"x-top-level-container": `container stray { typedef st { type other; } typedef st2 { type p:other; } leaf l { type st; } }`,
 	// builds as a grouping node, refused by the set because it is not a module
 	"x-top-level-grouping": `grouping g { typedef broken2 { type nosuch; } leaf l { type string; } }`,
 	"x-syntax": `module xs { namespace "urn:xs"; prefix xs; container c { leaf l { type string; }`,
@@ -87,6 +131,7 @@ type op struct {
 type cas struct {
 	Hist   []op       `json:"hist"`
 	Expect [][]string `json:"expect"`
+	Prop   string     `json:"prop"`
 }
 
 func qual(i *yang.Identity) string {
@@ -120,8 +165,31 @@ func Dump(ms *yang.Modules, errs []error) string {
 	}
 	sort.Strings(keys)
 	fmt.Fprintf(&sb, "submodules: %s\n", strings.Join(keys, " "))
+	for _, ns := range []string{"urn:tgt", "urn:dv", "urn:bb", "urn:nosuch"} {
+		if m, err := ms.FindModuleByNamespace(ns); err == nil {
+			fmt.Fprintf(&sb, "namespace %s -> %s\n", ns, m.FullName())
+		} else {
+			fmt.Fprintf(&sb, "namespace %s -> error\n", ns)
+		}
+	}
 	if len(errs) > 0 {
-		return sb.String() // with errors the statement promises the same errors, not trees
+		// with errors: the same errors, and the trees a caller can still read are those
+		// of a fresh set in the same situation (paths and kinds only)
+		keys = keys[:0]
+		for k := range ms.Modules {
+			keys = append(keys, k)
+		}
+		sort.Strings(keys)
+		for _, k := range keys {
+			flat := schema.Flatten(yang.ToEntry(ms.Modules[k]))
+			var ps []string
+			for p, o := range flat {
+				ps = append(ps, p+"("+o.Kind+")")
+			}
+			sort.Strings(ps)
+			fmt.Fprintf(&sb, "after-errors %s: %s\n", k, strings.Join(ps, " "))
+		}
+		return sb.String()
 	}
 	keys = keys[:0]
 	for k := range ms.Modules {
@@ -174,6 +242,9 @@ func batch(ids []string) string {
 }
 
 func queries(ms *yang.Modules) {
+	for _, ns := range []string{"urn:i1", "urn:t2", "urn:a3", "urn:m4", "urn:bb", "urn:ib", "urn:tgt", "urn:dv", "urn:rv", "urn:idm", "urn:idb", "urn:lnk", "urn:nosuch"} {
+		ms.FindModuleByNamespace(ns)
+	}
 	for _, m := range ms.Modules {
 		e := yang.ToEntry(m)
 		e.GetErrors()
@@ -274,6 +345,10 @@ func exec(kind byte, body []byte) *core.Verdict {
 			hs = append(hs, o.Op)
 		}
 	}
+	if c.Prop == "C01" { // only "every call returns": a panic reaches the executor, a hang its time limit
+		replay(&c, nil)
+		return v
+	}
 	sig, detail := safeReplay(&c, nil)
 	if sig == "" {
 		if len(c.Hist) == 5 && c.Hist[1].Op == "process" && c.Hist[2].Text == "a3" {
@@ -313,6 +388,22 @@ func exec(kind byte, body []byte) *core.Verdict {
 	return v
 }
 
+// Histories lets another property's check run the histories of the second catalogue that load one of the
+// given texts: what the property promises must hold however the set was arrived at.
+func Histories(r *core.Run, prop string, texts ...string) {
+	core.CaseSuffix = `,"prop":"` + prop + `"}`
+	keep := func(i int64, body string) bool {
+		for _, t := range texts {
+			if strings.Contains(body, `"text":"`+t+`"`) {
+				return true
+			}
+		}
+		return false
+	}
+	r.DirectionA("session", core.TLCOpts{Module: "MCSession", Cfg: "MCSession_quick2.cfg", Workers: 12, HeapGB: 16, Timeout: 0}, keep)
+	core.CaseSuffix = ""
+}
+
 func check(r *core.Run) {
 	cfg := "MCSession_quick.cfg"
 	if r.Tier == "thorough" {
@@ -322,4 +413,5 @@ func check(r *core.Run) {
 	r.Exhaustive = true
 	r.Assumptions = []string{"Batch is computed by the real library on a fresh set (the statement defines the property that way); the specification decides which texts count"}
 	r.DirectionA("session", core.TLCOpts{Module: "MCSession", Cfg: cfg, Workers: 12, HeapGB: 16, Timeout: 0}, nil)
+	r.DirectionA("session", core.TLCOpts{Module: "MCSession", Cfg: strings.Replace(cfg, ".cfg", "2.cfg", 1), Workers: 12, HeapGB: 16, Timeout: 0}, nil)
 }
